@@ -280,6 +280,48 @@ func (cu *culprits) ofCmds(cmds []string) string {
 	return class
 }
 
+// ofLeftovers: every leftover object was referenced on the initial device only by entries of crypto maps of ONE culprit class.
+func (cu *culprits) ofLeftovers(lo []string, dev *vdev) string {
+	class := ""
+	for _, l := range lo {
+		f := strings.SplitN(l, " ", 2)
+		if len(f) != 2 {
+			return "other"
+		}
+		r := ref{f[0], f[1]}
+		n := 0
+		for _, x := range dev.Blocks {
+			uses := false
+			for _, y := range x.refs() {
+				if y == r {
+					uses = true
+				}
+			}
+			if !uses {
+				continue
+			}
+			n++
+			w := x.words()
+			k := "other"
+			if kk, _ := headKind(w); kk == "cmap" {
+				k = cu.ofMap(w[2])
+			}
+			if class == "" {
+				class = k
+			} else if class != k {
+				return "other"
+			}
+		}
+		if n == 0 {
+			return "other"
+		}
+	}
+	if class == "" {
+		return "other"
+	}
+	return class
+}
+
 // ofViews: the lines in which the two views differ are all `[crypto map interface X]` lines of maps of ONE culprit class.
 func (cu *culprits) ofViews(got, want string) string {
 	in := func(l []string) map[string]bool {
@@ -704,7 +746,7 @@ func run(ctx *Ctx) *Result {
 				return
 			}
 			if lo := final.leftovers(); len(lo) > 0 {
-				res.Fail(sig("leftover_generated_object"), "unreferenced generated objects remain: "+strings.Join(lo, ", ")+"\n-- script\n"+out, c)
+				res.Fail(sig("leftover_generated_object", "culprit", cu.ofLeftovers(lo, c.dev)), "unreferenced generated objects remain: "+strings.Join(lo, ", ")+"\n-- script\n"+out, c)
 			}
 			out2, err2, st2, pan2 := runDrc(final.print(), c.Spoc)
 			if ga != nil && ga.acc {
